@@ -9,6 +9,9 @@ H1  schedules: caller = enter; update^u; exit -- all interleavings with the time
       A  a callback is running while the caller executes exit()        (key .../cancel-rearm-race)
       B  no such overlap                                               (key .../concurrent-update-orphan)
     for ProgressBar; ProgressSilent / ProgressSimple are lowered the same way (no timer events).
+H1w caller = the real `with obj as p: p.update()^u` statement, its body may fail at a symbolic point; the
+    class' own __enter__/__exit__ bodies are lowered and inlined (exceptional/normal arguments), all
+    interleavings with the callbacks.  Key .../H1w/<type>/exit-on-exception-leaves-timer.
 H1f calls without protocol meaning inside the progress methods (print, format, write, flush, ...) may
     raise: caller = enter(); try: update()^u finally: exit(); assertion after the exception has left.
     Key .../H1f/<type>/output-failure-leaves-timer.
@@ -374,8 +377,32 @@ def run_h1(job):
             import oqupy.util as util
             low = Lowered(util, PTYPES[ptype], bool(faults))
         top = thx.toplevel_calls([("enter", ())] + [("update", (thx.OTHER,))] * u + [("exit", ())])
-        if faults:
-            # the caller of `with progress(..) as p:` / try..finally:  enter(); try: update()^u finally: exit()
+        body_raises = bool(job.get("body_raises"))
+        use_with = (bool(faults) or body_raises) and low.ci.is_method("__enter__") and low.ci.is_method("__exit__")
+        shape = "with" if use_with else (True if faults else False)
+        if use_with:
+            # `with obj as p: [fail?] p.update() [fail?] ...`: the class' REAL __enter__/__exit__ bodies are lowered and inlined;
+            # __exit__ gets (None, None, None) on the normal path and non-None arguments on the exceptional path; where the body
+            # fails is a free Boolean per step (nd jump to the handler), besides exceptions escaping from update() itself
+            NN = ("const", True)          # stands for "some non-None object"
+            code = [thx.Ins("call", "__enter__", ())]
+            for _ in range(u):
+                if body_raises:
+                    code.append(thx.Ins("nd", c="H"))
+                code.append(thx.Ins("call", "update", (thx.OTHER,), err="H"))
+            if body_raises:
+                code.append(thx.Ins("nd", c="H"))
+            code += [thx.Ins("call", "__exit__", (("const", None),) * 3), thx.Ins("ret")]
+            h = len(code)
+            code += [thx.Ins("call", "__exit__", (NN, NN, NN)), thx.Ins("raise")]
+            for i_ in code:
+                if i_.c == "H":
+                    i_.c = h
+                if i_.err == "H":
+                    i_.err = h
+            top = thx.MethodIR("<with caller>", [], {}, code)
+        elif faults:
+            # classes without __enter__/__exit__ (self-tests): enter(); try: update()^u finally: exit()
             h = u + 3
             code = [thx.Ins("call", "enter", ())] + [thx.Ins("call", "update", (thx.OTHER,), err=h) for _ in range(u)] + \
                    [thx.Ins("call", "exit", ()), thx.Ins("ret"), thx.Ins("call", "exit", ()), thx.Ins("raise")]
@@ -406,52 +433,79 @@ def run_h1(job):
         if low.mismatch:
             return res
         res["bounds"].update({"timers_fire": firing, "calls_that_may_raise": faults or "none", "fault_events_of_the_caller": sum(1 for i in main.code if i.op == "fault"),
-                              "caller_shape": "enter(); try: update()^u finally: exit()" if faults else "enter(); update()^u; exit()"})
+                              "caller_shape": ("with obj as p: p.update()^u  (real __enter__/__exit__ bodies; body may fail: %s)" % body_raises) if use_with
+                              else ("enter(); try: update()^u finally: exit()" if faults else "enter(); update()^u; exit()")})
         bm = thx.Bmc(main, cbs, finit, low.ci.locks, T, B, firing=firing, fault_any=faults)
         s = bm.build(job["timeout_s"])
         res["states"] = B + 1
         res["transitions"] = bm.transitions
         res["paths"] = 1
-        seg = [x for x in main.segs if x[0] == "exit"]
+        seg = [x for x in main.segs if x[0] in ("exit", "__exit__")]
         # reachability twin: the caller can finish, and (bar) a re-arming callback can run to completion before that
         tw = [bm.reach_end()]
         nfs = sum(1 for i in main.code if i.op == "fault")
-        if faults and nfs:
+        if body_raises:
+            tw.append(z3.Or(*[z3.And(bm.S[k]["mpc"] == bm.P(thx.ABORT), (bm.S[k]["nxt"] > 1) if T else z3.BoolVal(True)) for k in range(B + 1)]))
+        elif faults and nfs:
             tw.append(z3.Or(*[z3.And(bm.S[k]["flt"], bm.S[k]["mpc"] == bm.P(thx.ABORT), (bm.S[k]["nxt"] > 1) if T else z3.BoolVal(True)) for k in range(B + 1)]))
         elif T:
             tw.append(z3.Or(*[z3.And(bm.S[k]["ts"][i] == thx.DONE, bm.S[k]["nxt"] > (2 if ptype == "bar" else 0)) for k in range(B + 1) for i in range(T)]))
         r, _, dt = _check(s, tw, job["timeout_s"])
         res["solver_s"] += dt
-        res["twins"].append({"twin": ("a call inside update()/exit() raises after two timers were created and the exception leaves the caller"
+        res["twins"].append({"twin": "the with-body fails after two timers were created and the exception leaves the caller through __exit__" if body_raises else
+                             ("a call inside update()/exit() raises after two timers were created and the exception leaves the caller"
                                       if faults else "caller completes" + (" and a callback thread ran to its end after re-arming" if T else "")), "result": r})
         if r != "sat":
             res["errors"].append("reachability twin not sat (%s): bound too small or model wrong" % r)
         side = [bm.any_violation(True if faults else None)]
+        if body_raises:
+            # the exceptional path: the caller left by the exception (the normal path is H1's)
+            side = [z3.Or(*[z3.And(bm.violation(k), bm.S[k]["mpc"] == bm.P(thx.ABORT)) for k in range(B + 1)])]
         if klass == "A":
             side.append(bm.overlap(seg[0]))
         elif klass == "B":
             side.append(z3.Not(bm.overlap(seg[0])))
         r, m, dt = _check(s, side, job["timeout_s"])
         res["solver_s"] += dt
-        q = {"label": ("no WAITING timer once an exception raised by a print/format/write call of the progress methods has left the caller [%s]"
-                       if faults else "no WAITING timer once the caller has left and no callback runs [%s]") % klass, "result": r, "s": round(dt, 2),
-             "trivial": False, "hash": _qhash("H1", ptype, u, T, B, klass, faults, firing, [repr(i) for i in main.code])}
+        if body_raises:
+            qlabel = "no WAITING timer once `with progress(..) as p:` has been left by an exception raised in its body (symbolic point; real __exit__ body) [%s]" % klass
+        elif faults:
+            qlabel = "no WAITING timer once an exception raised by a print/format/write call of the progress methods has left the caller [%s]" % klass
+        else:
+            qlabel = "no WAITING timer once the caller has left and no callback runs [%s]" % klass
+        q = {"label": qlabel, "result": r, "s": round(dt, 2),
+             "trivial": False, "hash": _qhash("H1", ptype, u, T, B, klass, faults, firing, body_raises, [repr(i) for i in main.code])}
         res["queries"].append(q)
         if r == "unknown":
             res["inconclusive"].append({"label": q["label"], "why": "solver unknown/timeout"})
         if r == "sat":
             sched, final = bm.schedule(m)
+            raise_at = None
+            if body_raises:
+                # where did the body fail?  = number of update() calls the caller had entered before the taken nd jump
+                upd_segs = [x for x in main.segs if x[0] == "update" and x[1] is not None]
+                entered = set()
+                for st in sched:
+                    if st["thread"] != "main":
+                        continue
+                    if st["op"] == "nd" and st.get("taken") and raise_at is None and not any(lo <= st["pc"] < hi for _, lo, hi in upd_segs):
+                        raise_at = len(entered)
+                    for n_, (_, lo, hi) in enumerate(upd_segs):
+                        if lo <= st["pc"] < hi:
+                            entered.add(n_)
             rr = thx_replay.replay_schedule(util, low.cls, attrs, list(low.ci.locks), h1_calls(u), sched, event_attrs=list(low.ci.events),
-                                            fault_codes=low.codes() if faults else None, guarded=bool(faults))
+                                            fault_codes=low.codes() if faults else None, guarded=shape, raise_at=raise_at)
             res["replays"] += 1
             info = {"model_final": final, "replay": {k: rr[k] for k in ("leaked", "threads", "bytes_after_exit", "rearmed", "desync", "thread_exceptions", "caller_exception")},
                     "schedule": ["%s:%s%s" % (x["thread"], x["op"], ("!RAISES(%s in %s)" % (x.get("what"), (x.get("site") or ["?"])[0])) if x.get("raises") else "")
                                  for x in sched if not (x["op"] == "fault" and not x.get("raises"))]}
             values = {"kind": "H1", "ptype": ptype, "u": u, "schedule": sched, "attrs": attrs, "locks": list(low.ci.locks),
-                      "events": list(low.ci.events), "cls": low.clsname, "selftest": job["kind"] == "S", "guarded": bool(faults)}
+                      "events": list(low.ci.events), "cls": low.clsname, "selftest": job["kind"] == "S", "guarded": shape, "raise_at": raise_at, "faults": bool(faults)}
             if rr["leaked"] and not rr["desync"]:
                 q["replayed"] = True
                 vkey = "%s/H1f/%s/output-failure-leaves-timer" % (PROP, ptype) if faults else "%s/H1/%s/%s" % (PROP, ptype, H1_KEYS[klass])
+                if body_raises:
+                    vkey = "%s/H1w/%s/exit-on-exception-leaves-timer" % (PROP, ptype)
                 res["violations"].append({"label": q["label"], "key": vkey, "magnitude": float(len(rr["leaked"])),
                                           "values": values, "found_by": "z3 model of the unrolled schedule, replayed with real threads: "
                                           "threading.enumerate() shows the surviving Timer (it wrote %d bytes after exit() and re-armed=%s)"
@@ -868,6 +922,12 @@ def jobs_for(tier):
         for b in h1_bounds(tier, ptype):
             for klass in (("A", "B") if ptype == "bar" else ("any",)):
                 jobs.append(dict(kind="H1", ptype=ptype, klass=klass, timeout_s=tmo, **b))
+    # H1w: the caller is a real `with` statement whose body may fail at a symbolic point: the class' own __enter__/__exit__
+    # bodies (lowered from the current source like every other method) run, interleaved with the timer callbacks
+    for b in ([dict(u=1, T=4, Bcap=64)] if tier == "quick" else [dict(u=1, T=4, Bcap=80), dict(u=2, T=4, Bcap=72)]):
+        jobs.append(dict(kind="H1w", ptype="bar", klass="any", body_raises=True, firing=True, timeout_s=tmo, **b))
+    for ptype in ("simple", "silent"):
+        jobs.append(dict(kind="H1w", ptype=ptype, klass="any", body_raises=True, firing=True, timeout_s=tmo, u=2, T=2, Bcap=24))
     # H1f: calls without protocol meaning inside the progress methods (print, str.format, file.write/flush, ...) may raise
     for ptype in ("bar", "simple", "silent"):
         jobs.append(dict(kind="H1f", ptype=ptype, klass="any", u=2, T=4, Bcap=200, faults="caller", firing=False, timeout_s=tmo, tag="seq"))
@@ -889,6 +949,8 @@ def jobs_for(tier):
     for j in jobs:
         if j["kind"] == "H1":
             j["id"] = h1_case_id(j["ptype"], j["u"], j["klass"])
+        elif j["kind"] == "H1w":
+            j["id"] = "H1w/%s/u%d" % (j["ptype"], j["u"])
         elif j["kind"] == "H1f":
             j["id"] = "H1f/%s/u%d/%s" % (j["ptype"], j["u"], j["tag"])
         elif j["kind"] == "S":
@@ -904,7 +966,7 @@ def _run_job(job):
     warnings.simplefilter("ignore")
     if os.environ.get("VF_VERBOSE"):
         print("[start] %s" % job["id"], file=sys.stderr, flush=True)
-    r = run_h1(job) if job["kind"] in ("H1", "H1f", "S") else (run_h3(job) if job["kind"] == "H3" else run_h2(job))
+    r = run_h1(job) if job["kind"] in ("H1", "H1f", "H1w", "S") else (run_h3(job) if job["kind"] == "H3" else run_h2(job))
     if os.environ.get("VF_VERBOSE"):
         print("[done ] %s %.1fs %s viol=%d err=%d inc=%d" % (job["id"], r.get("wall_s", 0), [q["result"] for q in r["queries"]],
               len(r["violations"]), len(r["errors"]), len(r["inconclusive"])), file=sys.stderr, flush=True)
@@ -973,7 +1035,7 @@ class ReplayCase(Case):
             mod = sys.modules[__name__] if v.get("selftest") else util
             cls = getattr(mod, v.get("cls") or PTYPES[v["ptype"]])
             codes = None
-            if v.get("guarded"):
+            if v.get("faults", v.get("guarded") is True):
                 import inspect
                 codes = {}
                 for nm in dir(cls):
@@ -981,7 +1043,7 @@ class ReplayCase(Case):
                     if inspect.isfunction(f):
                         codes[nm] = f.__code__
             rr = thx_replay.replay_schedule(mod, cls, v["attrs"], v["locks"], h1_calls(int(v["u"])), v["schedule"], event_attrs=v.get("events", ()),
-                                            fault_codes=codes, guarded=bool(v.get("guarded")))
+                                            fault_codes=codes, guarded=v.get("guarded"), raise_at=v.get("raise_at"))
             print("replay: leaked timers %s threads %s desync %s" % (rr["leaked"], rr["threads"], rr["desync"]))
             return [Ob.holds("no timer survives the schedule", not rr["leaked"])]
         if v.get("kind") == "H3":
